@@ -93,7 +93,7 @@ AcceptHdrFind(s, o) ==
 \* a window of 4 equal fill bytes can never be the magic, so only positions touching a patch are candidates
 XByte(mx, i) ==
   LET P == {k \in 1..Len(mx.patch) : i >= mx.patch[k].off /\ i < mx.patch[k].off + Len(mx.patch[k].b)} IN
-  IF P = {} THEN mx.fill
+  IF P = {} THEN (IF "tile" \in DOMAIN mx THEN mx.tile[(i % Len(mx.tile)) + 1] ELSE mx.fill)     \* "tile": a repeated pattern under the patches
   ELSE LET k == CHOOSE x \in P : \A y \in P : x >= y IN mx.patch[k].b[i - mx.patch[k].off + 1]
 XBytes(mx, i, n) == [j \in 1..n |-> XByte(mx, i + j - 1)]
 XCand(mx) == UNION { (mx.patch[k].off - 3)..(mx.patch[k].off + Len(mx.patch[k].b) - 1) : k \in 1..Len(mx.patch) }
